@@ -278,16 +278,50 @@ def e3(repo):
     # --- read_double_char_op: if/else-if chain on first_op, each a match on `next`
     body = extract.fn_body(src, "read_double_char_op")
     dbl = []
-    pos = 0
+    pk = re.search(r"let\s+(\w+)\s*=\s*buf\s*\.\s*peek\s*\(\s*\)\s*;", body)
+    if not pk or not re.search(r"let\s+mut\s+is_double_op\s*=\s*true\s*;", body):
+        raise ValueError("read_double_char_op: prologue changed")
+    peek = pk.group(1)
+    ERR = r"Err\s*\(\s*GoldLexerError\s*\{\s*range\s*:\s*self\s*\.\s*create_range\s*\(\s*pos\s*,\s*1\s*\)\s*,.*?\}\s*\)"
+    TAIL = r"if\s+is_double_op\s*\{\s*buf\s*\.\s*next\s*\(\s*\)\s*;\s*\}\s*;?\s*return\s+result\s*;\s*\}"
+    branches = []     # (first character, text between the braces of its `match <peek> { … }`)
     chain = list(re.finditer(r"(?:\belse\s+)?\bif\s+first_op\s*==\s*" + RUST_CHAR + r"\s*\{", body))
-    if not chain:
+    if chain:
+        # shape 1: if / else-if chain on first_op, each `result = match <peek> {…};`, then `else { result = Err(…) }`
+        for m in chain:
+            first = rust_char(m.group(1))
+            blk = body[m.end() - 1:extract.match_brace(body, m.end() - 1)]
+            if not re.fullmatch(r"\{\s*result\s*=\s*match\s+%s\s*\{.*\}\s*;\s*\}" % peek, blk, re.S):
+                raise ValueError("read_double_char_op: branch for %r is not `result = match %s {…};`" % (first, peek))
+            branches.append((first, inner_match(blk, peek)[0]))
+        tail = body[extract.match_brace(body, chain[-1].end() - 1):]
+        if not re.fullmatch(r"\s*else\s*\{\s*result\s*=\s*" + ERR + r"\s*;\s*\}\s*" + TAIL, tail, re.S):
+            raise ValueError("read_double_char_op: tail (else-error / consume second char) changed")
+    else:
+        # shape 2: `let result … = match first_op { 'c' => match <peek> {…}, …, _ => Err(…) };` with the same tail
+        try:
+            arms_txt, m_start, m_end = inner_match(body, r"first_op")
+        except ValueError:
+            raise ValueError("read_double_char_op: no first_op chain")
+        if not re.search(r"let\s+result\s*(?::[^=]*)?=\s*match\s+first_op\s*$", body[:m_start]):
+            raise ValueError("read_double_char_op: the match on first_op is not what `result` is bound to")
+        saw_err = False
+        for pat, expr in match_arms(arms_txt):
+            if pat == "_":
+                if not re.fullmatch(ERR, expr.strip().rstrip(",").strip(), re.S):
+                    raise ValueError("read_double_char_op: default arm is not the error")
+                saw_err = True
+                continue
+            pm = re.fullmatch(RUST_CHAR, pat)
+            mm = re.fullmatch(r"match\s+%s\s*\{(.*)\}" % peek, expr.strip().rstrip(",").strip(), re.S)
+            if not pm or not mm or saw_err:
+                raise ValueError("read_double_char_op: unexpected arm %r" % pat)
+            branches.append((rust_char(pm.group(1)), mm.group(1)))
+        if not saw_err or not re.fullmatch(r"\s*;\s*" + TAIL, body[m_end:], re.S):
+            raise ValueError("read_double_char_op: tail (error arm / consume second char) changed")
+    if not branches:
         raise ValueError("read_double_char_op: no first_op chain")
-    for m in chain:
-        first = rust_char(m.group(1))
-        blk = body[m.end() - 1:extract.match_brace(body, m.end() - 1)]
-        if not re.fullmatch(r"\{\s*result\s*=\s*match\s+next\s*\{.*\}\s*;\s*\}", blk, re.S):
-            raise ValueError("read_double_char_op: branch for %r is not `result = match next {…};`" % first)
-        t, _, _ = inner_match(blk, r"next")
+    for first, t in branches:
         doubles, single = [], None
         for pat, expr in match_arms(t):
             pm = re.fullmatch(r"Some\s*\(\s*\(\s*_\s*,\s*" + RUST_CHAR + r"\s*\)\s*\)", pat)
@@ -311,14 +345,6 @@ def e3(repo):
         if single[0] not in kinds:
             raise ValueError("unknown kind %s" % single[0])
         dbl.append((first, doubles, single))
-    # the rest of the function: else { result = Err(..create_range(pos, 1)..) }  if is_double_op {buf.next();}
-    tail = body[extract.match_brace(body, chain[-1].end() - 1):]
-    if not re.fullmatch(r"\s*else\s*\{\s*result\s*=\s*Err\s*\(\s*GoldLexerError\s*\{\s*range\s*:\s*self\s*\.\s*create_range\s*\(\s*pos\s*,\s*1\s*\)\s*,.*?\}\s*\)\s*;\s*\}\s*"
-                        r"if\s+is_double_op\s*\{\s*buf\s*\.\s*next\s*\(\s*\)\s*;\s*\}\s*;?\s*return\s+result\s*;\s*\}", tail, re.S):
-        raise ValueError("read_double_char_op: tail (else-error / consume second char) changed")
-    if not re.search(r"let\s+mut\s+is_double_op\s*=\s*true\s*;", body) or not re.search(r"let\s+next\s*=\s*buf\s*\.\s*peek\s*\(\s*\)\s*;", body):
-        raise ValueError("read_double_char_op: prologue changed")
-
     out = ["import GoldModel.Gen.E1_TokenKind", "namespace Gold.Lex", "",
            "/-- what an arm of `read_symbol` does with its first character -/",
            "inductive SymAction where",
